@@ -11,8 +11,8 @@ from harness import c07_fw as F
 
 META = {
     "id": "C07",
-    "technique": "Coq proof (induction over line lists: _strip_inline_comment vs Python's comment rule, _collect_block vs Python's block rule, round trip of the block-skeleton parser over every layout of the re-layout relation; reflection over the translator-generated line-accounting table) + extracted-model correspondence with the real lexical functions, header regexes and the recorded _parse_simple_lines call tree + CPython tokenize/ast validation of the specification + re-layout metamorphism and line-accounting oracles on the real parse()+emit() with the REDUINO_VERIF hook",
-    "level_text": "Theorems C07_* (coq/Props/C07.v) are proved for all line lists about a Gallina model of the lexical layer of parser.py (Lang/Lex.v) against a hand-written model of Python's layout rules (Lang/PyLayout.v, validated against CPython's tokenizer and ast on every run). Block extent and comment stripping are proved inside explicit guards and refuted outside them by concrete witnesses (mixed tabs, '#' in a triple-quoted literal); comment-only lines at any column, trailing comments on column-0 headers and on elif/else/except are inside the guards since the repair of the comment handling (fixed findings, replayed on every run); the line-accounting table (69 statement kinds x 4 contexts) is regenerated from the current parser and checked by computation against the fixed set of the property plus the listed gaps; `continue` left the listed gaps with the repair of the parser (fixed finding, replayed on every run) and is pinned: translated in a for/while loop and at the level of the main loop, rejected outside any loop. The model is run against the real functions on enumerated and generated inputs; the property's own relations (same firmware across layouts; no unlisted line disappears) are evaluated on the real transpiler.",
+    "technique": "Coq proof (induction over line lists: _strip_inline_comment vs Python's comment rule, _collect_block vs Python's block rule, round trip of the block-skeleton parser over every layout of the re-layout relation; reflection over the translator-generated line-accounting table) + extracted-model correspondence with the real lexical functions, header regexes and the recorded _parse_simple_lines call tree + CPython tokenize/ast validation of the specification + re-layout metamorphism and line-accounting oracles on the real parse()+emit() with the REDUINO_VERIF hook + Coq model of the control-flow part of _emit_block / emit() with a C++ compound-statement reader as specification (induction over IR trees: the firmware's block tree and the conditions every line runs under are Python's) + block-structure oracle on the real firmware",
+    "level_text": "Theorems C07_* (coq/Props/C07.v) are proved for all line lists about a Gallina model of the lexical layer of parser.py (Lang/Lex.v) against a hand-written model of Python's layout rules (Lang/PyLayout.v, validated against CPython's tokenizer and ast on every run). Block extent and comment stripping are proved inside explicit guards and refuted outside them by concrete witnesses (mixed tabs, '#' in a triple-quoted literal); comment-only lines at any column, trailing comments on column-0 headers and on elif/else/except are inside the guards since the repair of the comment handling (fixed findings, replayed on every run); the line-accounting table (69 statement kinds x 4 contexts) is regenerated from the current parser and checked by computation against the fixed set of the property plus the listed gaps; `continue` left the listed gaps with the repair of the parser (fixed finding, replayed on every run) and is pinned: translated in a for/while loop and at the level of the main loop, rejected outside any loop. The firmware side (Lang/EmitBlocks.v): _emit_block's treatment of IfStatement / WhileLoop / ForRangeLoop / TryStatement and the function / setup / loop sections of emit() are modelled line by line; read the way C++ groups lines into compound statements, the emitted lines are proved to be one stanza per branch, loop and handler around exactly its own lines (C07_emit_block_structure, C07_sketch_sections_structure), and - composed with the grouping of the lexical skeleton into IR nodes and with C07_roundtrip_partial - the compound statements of the firmware and the conditions each line runs under are proved to be those of Python's block tree for every layout inside the guard (C07_firmware_blocks_are_pythons_partial, C07_layout_to_firmware_partial, C07_firmware_paths_are_pythons_partial); the statement layer enters these theorems as arbitrary functions. The model is run against the real functions on enumerated and generated inputs; the property's own relations (same firmware across layouts; no unlisted line disappears; every control header of the script is in the firmware once and every numbered statement / break / continue / return runs in the function and under the chain of conditions Python gives it) are evaluated on the real transpiler.",
     "level_note": "Trusted: Coq kernel, translator harness/gen/dispatch.py (black-box observation of parse+emit), extraction, OCaml driver, CPython tokenize/ast as 'what Python means'. Theorems are about the model; statement-level dispatch (the regex chain inside a line) is observed, not modelled.",
     "design_ref": "DESIGN.md section 4 C07, Appendix B.5",
 }
@@ -531,9 +531,6 @@ def run(ctx: C.Ctx):
         if still:
             ctx.known(f"{f['id']}: {f['what']}")
 
-    import os, json as _json
-    if os.environ.get("C07_DEBUG"):
-        _json.dump(ctx.tie_broken, open(os.environ["C07_DEBUG"], "w"))
     # ================================================================ evidence
     for (pi, u, lt, fj, lines) in inguard[1:4]:
         samples.append({"unit": u, "script": lines})
@@ -547,6 +544,9 @@ def run(ctx: C.Ctx):
                  "lexical: exhaustive strings over {a,blank,#,',\",\\} up to length 5 (6 thorough) and over {blank,tab,x,#,FF,NBSP,U+3000} up to length 3 (4), "
                  "realistic lines, every start index of generated scripts for the three span functions, header texts with near-misses. "
                  "accounting: one probe per (69 kinds x 4 contexts) with and without the probe line. "
+                 f"firmware block structure: the programs above plus {n_hollow} random programs in which every body (if / elif / else / while / for / try / except / def / main loop) is, with probability 0.35, made only of lines of the fixed set (pass, print, docstring, import), with chains of up to 5 elif and with break / bare return, plus an exhaustive family (every if chain of 1-3 branches and optional else, every try with 1-2 handlers, every loop, with bodies over {{device statement, pass, print}}, at column 0 / in the main loop / in a function / in a for body); "
+                 "oracle C compares, per function of the sketch, the multiset of (path, item) - items: control headers, numbered statements, break / continue / return; path: function, enclosing loops / try / catch, and for a member of an if chain its own condition and the negated earlier ones - computed from the skeleton and from the firmware read with the C++ reader; the smallest failing script per class is shrunk by removing statements while the real transpiler still fails. "
+                 "emitter: random IR control skeletons (depth <= 4, bodies empty with probability 0 / 0.3 / 0.6, 11 leaf node kinds incl. one that emits nothing and one that opens its own block, 5 indentations) plus all 81+8 placements of empty / line-less / non-empty bodies in a 3-branch chain, through the real _emit_block and the extracted emit_list (lines equal), whole hand-built Programs through the real emit() (sections), the extracted C++ reader against its Python twin on every emitted block and every real firmware section, and py_cs of the model (parse_lines -> to_ir) against the compound statements of the real firmware of every generated program. "
                  "non-trivial = a layout differing from the canonical one / a line the stripper changes / a non-empty span / a header text some regex matches."),
         "samples": samples,
         "distribution": {**dist, "programs": n_prog, "inguard_layouts": len(inguard), "perturbed_scripts": len(perturbed), "relayout_pairs": n_pairs,
@@ -556,10 +556,14 @@ def run(ctx: C.Ctx):
         "guard": ("layouts: indentation of statements by one unit string (spaces or tabs, not mixed; comment-only lines at any column, any white space); "
                   "one physical line per statement (no continuation, no ';', no multi-line literal); no '#' inside triple-quoted literals; optional spacing only "
                   "around operators, inside call parentheses, before the header colon, after keywords (not between a callee and '(', not around '.', "
-                  "not if(/while(/elif( without a blank, not `range (`). accounting: statement kinds outside DispatchSpec.known_gaps."),
+                  "not if(/while(/elif( without a blank, not `range (`). accounting: statement kinds outside DispatchSpec.known_gaps. "
+                  "firmware block structure: simple statements whose C++ lines are closed pieces (every block they open they close: leaf_ok), elif/else only after if/elif and except only after try/except (chain_ok - Python's grammar); "
+                  "an `else` whose body yields no IR node is not written by the emitter - it cannot change what runs, the oracle accepts it present or absent; numbered statements are mon.write / x = / sleep lines."),
         "unmodelled": ["line continuation (backslash, open brackets) and multi-line string literals",
                        "the statement dispatch chain inside a line (regexes of _parse_simple_lines after block detection): observed through the generated table and the hook, not modelled in Coq",
                        "target(...) lines (captured before block detection)",
+                       "the C++ lines a simple (non-control) node is emitted as: leaves of the IR model carry them as given (taken from the real emitter in the correspondence); hoisting of declarations / pinMode into setup() by emit(); variable promotion nodes the parser inserts before a block",
+                       "C++ compound statements are read line-wise (a line ending in `{` opens, a line `}` closes): braces inside string literals or several statements per line are outside the reader - the emitter writes one statement per line",
                        "non-ASCII identifier characters in header regexes (\\w is modelled for ASCII)",
                        "optional spacing inside a statement: checked by the re-layout oracle on the real transpiler only",
                        "round trip at the level of parse() (column-0 headers, main loop, def, import filter; guard Layout.top_layout_ok): measured on every generated layout (model parse_top of the rendered layout = skeleton); proved are the round trip for snippets handed to _parse_simple_lines (C07_roundtrip_partial) and, at column 0, that a trailing comment on a line changes nothing of what parse() builds (C07_header_trailing_comment_invisible)"],
@@ -581,13 +585,26 @@ def _structure_verdict(tops, cpp):
                 "balanced braces in every function", problem)
     if want == got:
         return None
-    missing = [x for x in want if x not in got]
-    extra = [x for x in got if x not in want]
+    missing, extra = _msdiff(want, got), _msdiff(got, want)
     kind = (missing or extra)[0][1]
     return ("block-structure:" + str(kind[0]) + (":" + str(kind[1]) if kind[0] != "stmt" else ""),
             "the firmware does not have the block structure of the script: a control-flow header is missing/added, or a statement "
             "runs under other conditions (or in another function / phase) than Python gives it",
             {"only in the script (path, item)": F.show(missing)}, {"only in the firmware (path, item)": F.show(extra)})
+
+
+def _msdiff(a, b):
+    """multiset difference a - b"""
+    pool = {}
+    for x in b:
+        pool[repr(x)] = pool.get(repr(x), 0) + 1
+    out = []
+    for x in a:
+        if pool.get(repr(x), 0) > 0:
+            pool[repr(x)] -= 1
+        else:
+            out.append(x)
+    return out
 
 
 def _shrink_structure(tops, key, budget=1500):
